@@ -59,6 +59,7 @@ def run_kernel(L, name, inplace, dt, n, p, x):
 
 class Wrappers:
     """vec_znx_rotate / vec_znx_automorphism / big variants on modules, 2 limbs with padded stride."""
+    L_rng = random.Random(12345)
 
     def __init__(self, L, n):
         self.L, self.n = L, n
@@ -94,7 +95,7 @@ class Wrappers:
         if inplace == "one":    # one limb in place: the strides are nominal (never used to address a second limb) and differ
             a = Buf(8 * n, fill=0x33)
             a.i64[:] = x
-            L.call(f, mod, p, a, 1, n, a, 1, 2 * n)
+            L.call(f, mod, p, a, 1, self.L_rng.choice([n, 0, 7]), a, 1, self.L_rng.choice([2 * n, 0, n]))
             return a.i64.copy() if a.canaries_ok() else None
         if inplace == "compact":    # two limbs compacted in place: res == a, a_sl = 2n + 1, res_sl = n (limb 0 is its own source, limb 1 of res
             asl = 2 * n + 1         # overlaps no source limb partly and nothing that is still to be read)
